@@ -22,7 +22,7 @@ func init() {
 			"(R2) scheduler state (unit states, segment offsets, completed segment, worker states, walker flags, completion flags) is never written from a goroutine, an errgroup task or an asynchronous command closure — only from the single-threaded Update loop; " +
 			"(R3) NextJob schedules a unit only after dependenciesCompleted(unit) held and the unit was Pending; dependenciesCompleted itself lets its loop over the lower stages go on (or answers true) only after the previous segment of EACH lower stage was found Completed/NoOp, answers true before that loop only for stage 0, and accepts a lower unit of the same segment only in the states Completed, NoOp, Shadowed, PartialPresent (the job loads the full store of every lower stage at its first block); " +
 			"(R4) CmdTryMerge merges only the stage's next contiguous unit, only when its partial is present and the previous unit is complete; R4 also requires that whoever marks a store-stage unit Completed (merge finished, full snapshot found in storage) re-scans the merge frontier forward over already Completed units before returning, so the frontier can never be stranded on a Completed unit; " +
-			"(R5) failed jobs and merges quit the loop with their error, a succeeded job returns its worker, and every message type is handled by Update. Also (R3) a stage's segmenter starts at the minimum initial block folded over the modules of its layer. Also (R2) once all stores are completed every CmdTryMerge returns the completion command. Also (R2) a failed background write always makes WaitAsyncWork return a non-nil error.",
+			"(R5) failed jobs and merges quit the loop with their error, a succeeded job returns its worker, and every message type is handled by Update. Also (R3) a stage's segmenter starts at the minimum initial block folded over the modules of its layer. Also (R2) once all stores are completed every CmdTryMerge returns the completion command. Also (R2) a failed background write always makes WaitAsyncWork return a non-nil error. Also (R4) no comparison has Segmenter.Count() on one side.",
 		NotCovered:  "Absence of deadlock, exactly-once merging and termination over all event orders; that the decided conditions of markShadowedUnits / dependenciesCompleted are also sufficient (they were derived from what a tier-2 job loads and from defects D9, D10, D12).",
 		Assumptions: []string{"loop.EventLoop calls Update from one goroutine (checked: Update is only called from EventLoop.update, itself only from Run's loop)"},
 	})
@@ -531,6 +531,7 @@ func runC05(p *core.Prog, r *core.Report) {
 	r.Guard("C05.R5", "termination-test", "every segment counts", func() { checkAllStoresCompleted(p, r) })
 	r.Guard("C05.R5", "walker-protocol", "walker wake-ups", func() { checkWalkerProtocol(p, r, "C05.R5") })
 	r.GuardExact("C05.R2", "completion-signal", "completion answered on every call", func() { checkCompletionSignalOnEveryCall(p, r, "C05.R2") })
+	r.GuardExact("C05.R4", "segment-index-bounds", "indexes bounded by LastIndex", func() { checkSegmentIndexBounds(p, r, "C05.R4") })
 	r.GuardExact("C05.R2", "async-work-failure", "a failed background write fails the shutdown", func() {
 		checkFailureEndsFunction(p, r, "C05.R2", pkgStage, "Stages.WaitAsyncWork", 1)
 	})
